@@ -46,7 +46,12 @@ def run(tid, seed):
     for _ in range(rng.choice([1, 2, 3])):
         d = rng.choice([0.3, 0.7, 0.1 + 0.2, 1.0, 0.5])
         t0 = env.now
-        env.run(d)
+        try:
+            env.run(d)
+        except Exception:
+            # run() with a positive duration must not raise: reported as a run that did not complete
+            lines.append({'tid': tid, 'k': len(lines), 'ev': {'op': 'run', 'endeq': False, 'nodue': False, 'pastrejected': True}})
+            break
         past = True
         if env.now > 0:
             try:
